@@ -81,6 +81,40 @@ CLAIMS = {
               "classification of handlers is a hand-written oracle by handler name (DESIGN.md App. C); sessions are "
               "injected into the cache actor, the login flow is not exercised"),
         technique="Lean 4 theorem (decide +kernel over generated tables) + exhaustive differential correspondence"),
+    "C02": dict(
+        category="proof",
+        text=("Theorems (lean/RNacos/Props/C02.lean) over a byte-level model of one log file (header, varint index area, "
+              "record stream, zero padding, cursors, handle position): a representation invariant WF f es ('the file holds "
+              "exactly es') is established by create and preserved by every append (with and without an index step), "
+              "rejected append, truncation and reopen, hence by every history (history_holds_spec / run_wf, refinement to a "
+              "list); reads return exactly the slice of the specified log - same index, term, payload, in order "
+              "(read_returns_spec), never anything else (read_subset_spec); reopening from the bytes alone reconstructs "
+              "index list, cursors and counts for any number of index entries and record sizes (reopen_same_entries) and "
+              "reports the last entry's index and term (reopen_reports_last, reopen_reports_empty); append_ack / "
+              "append_refused. The record codec round trip is proved (decFrame_frame). Tie: differential correspondence "
+              "against the real LogInnerManager on real files incl. a hash of the whole file after each case, sizes that "
+              "align frames with the 1024-byte read chunks, 2/3-byte index steps, small index geometry through a guarded "
+              "hook; oracle = list of acknowledged entries."),
+        note=("trusted: Lean kernel; hand model RNacos/Model/LogFile.lean; the chunked readers are represented by the "
+              "whole-stream parse (C20 proves them equal for every chunking of frames+zeros); binary search modelled as "
+              "last entry <= start; file < 2^64 bytes, indexes >= 1; the multi-file manager (RaftLogManager) is covered by "
+              "the `logstore` correspondence only"),
+        technique="Lean 4 theorem (representation invariant, refinement for all histories) + differential correspondence"),
+    "C03": dict(
+        category="proof",
+        text=("Theorems (lean/RNacos/Props/C03.lean) on the same model and invariant, for every file holding any entry list "
+              "(any number of index entries, record sizes, cursor state, fresh or reopened) and every cut k: the file "
+              "afterwards holds exactly the entries below k, end index = k (truncate_keeps_prefix, below_cut_unchanged); "
+              "nothing at or above k is readable (above_cut_unreadable); the append at k is accepted and becomes the last "
+              "entry (append_at_cut_accepted, strip_not_full); the removed suffix never comes back under any later history "
+              "of appends of any size, further cuts and reopens (removed_never_returns); the reported term is that of the "
+              "last remaining entry (truncate_reports_last_term); cuts outside the log are no-ops / refused "
+              "(truncate_outside). Tie: differential correspondence against the real LogInnerManager over cut points "
+              "k-1/k/k+1 around every index entry x re-append shorter/equal/longer x reopen, file hash compared; four "
+              "genuine defects found this way and fixed (F02-F05)."),
+        note=("trusted: as C02; the multi-file cases (rollover, snapshot pointer files) are covered by the `logstore` "
+              "correspondence with the real RaftLogManager/FileStore, not by a theorem"),
+        technique="Lean 4 theorem (representation invariant) + differential correspondence"),
     "C05": dict(
         category="proof",
         text=("Theorems (lean/RNacos/Props/C05.lean) over the index file byte by byte: reopening after write_index returns "
